@@ -116,6 +116,41 @@ class Reference(object):
             if rng.random() < 0.2:
                 self.ghost.setdefault(l, []).append('ghost_%s' % len(self.ghost))
 
+    @classmethod
+    def big(cls, rng, n_cells=600, main_frac=0.85):
+        """few genes, 2-3 clusters, one of them with at least 256 cells (more
+        than 65535 when n_lo is above that): the integer arrays have to hold
+        totals that no 8-bit (16-bit) per-worker buffer could"""
+        self = cls.__new__(cls)
+        self.tree = gen.random_tree(
+            rng, max_depth=rng.choice([1, 2]), max_top=2, max_children=2,
+            rows=False, max_leaves=3)
+        self.tree.pop('metadata', None)
+        self.h = list(self.tree['hierarchy'])
+        self.leaf_level = self.h[-1]
+        self.leaves = list(self.tree[self.leaf_level].keys())
+        self.n_genes = rng.randint(1, 2)
+        self.genes = gen.fresh_names(rng, self.n_genes, prefix='g')
+        names = ['cell_%d' % i for i in rng.sample(range(10 * n_cells),
+                                                   n_cells)]
+        main = rng.choice(self.leaves)
+        self.label = {}
+        for nm in names:
+            r = rng.random()
+            if r < 0.04:
+                self.label[nm] = None
+            elif r < 0.04 + main_frac or len(self.leaves) == 1:
+                self.label[nm] = main
+            else:
+                self.label[nm] = rng.choice(self.leaves)
+        self.names = names
+        nprng = np.random.default_rng(rng.randrange(2 ** 31))
+        X = nprng.integers(0, 60, (n_cells, self.n_genes)).astype(float)
+        X[nprng.random(X.shape) < 0.1] = 0.0
+        self.X = X
+        self.ghost = {}
+        return self
+
     def tree_with_cells(self, subset=None):
         t = copy.deepcopy(self.tree)
         for l in self.leaves:
@@ -672,7 +707,7 @@ def check_run(ctx, ref, cfg, frontend='list', baseline=None):
                           dict(detail, other_cfg=b_cfg.as_dict(),
                                problems=p2[:5]))
     # (ii) correspondence with the model
-    if ctx.driver_ok and frontend == 'list':
+    if ctx.driver_ok and frontend == 'list' and len(ref.names) <= 5000:
         out, tbl = model_precompute(ctx, ref, cfg, ids)
         if 'err' in out:
             mp = [('model-error', out['err'])]
@@ -1202,6 +1237,11 @@ def translate(ctx):
         stats_util.translate_thresholds(ctx)
     except stats_util.TranslateError as e:
         ctx.broken.append('translator stats_utils.py: %s' % e)
+    try:
+        stats_util.translate_buffer_bits(ctx)
+    except stats_util.TranslateError as e:
+        ctx.broken.append('translator precompute_from_anndata.py (integer '
+                          'width of the worker buffers): %s' % e)
 
 
 def run(ctx):
@@ -1213,6 +1253,7 @@ def run(ctx):
     quick = ctx.tier == 'quick'
     n_refs = 32 if quick else 220
     n_splits = 4 if quick else 6
+    run_big(ctx, rng)
     for i in range(n_refs):
         ref = Reference(rng, small=(i % 3 == 0))
         baseline = None
@@ -1248,6 +1289,40 @@ def run(ctx):
         # the name tables that link the file to the later stages (model
         # CTM/Model/StageFiles.lean): rows and gene columns permuted
         stagefiles_util.check_names(ctx, rng)
+
+
+def run_big(ctx, rng):
+    """clusters of 256-700+ cells spread over >= 2 workers: the totals of
+    n_cells / gt0 / gt1 / ge1 exceed what an 8-bit array could hold although
+    no single worker's share does; thorough adds one reference whose totals
+    exceed 16 bits"""
+    quick = ctx.tier == 'quick'
+    # (n_processors, cells, share of the main cluster): the main cluster's
+    # total is above 255 (65535) while each worker's share stays below it
+    plan = []
+    for _ in range(3 if quick else 10):
+        n_proc = rng.choice([2, 2, 3, 4])
+        plan.append((n_proc, rng.randint(350, 230 * n_proc), 0.85))
+    if not quick:
+        plan.append((2, rng.randint(70000, 74000), 0.93))
+    for n_proc, n, frac in plan:
+        ref = Reference.big(rng, n, frac)
+        baseline = None
+        for k in range(2 if n < 5000 else 1):
+            files = split_files(rng, n, rng.choice([1, 2]))
+            rows = rng.choice([16, 32, 50]) if n < 5000 else 10000
+            cfg = RunConfig(rng, ref, force={
+                'files': files,
+                'encodings': [rng.choice(['dense', 'csr']) for _ in files],
+                'rows': rows,
+                'n_proc': n_proc if k == 0 else rng.choice([1, 2, 5]),
+                'norm': 'raw', 'dtype': rng.choice(['float64', 'int']),
+                'cell_set': None})
+            ctx.count('big-reference:%s' % ('>65535' if n > 65535 else
+                                            '>255'))
+            stats = check_run(ctx, ref, cfg, baseline=baseline)
+            if stats is not None and baseline is None:
+                baseline = (stats, cfg)
 
 
 def replay(ctx, data, from_corpus=False):
